@@ -13,7 +13,7 @@ from vf.ref import incremental as refinc
 
 ID = "C05"
 BOUNDS = {
-    "quick": "component level: every synthetic work graph with <=2 delivery groups (any parent relation) and either <=2 tasks (any non-empty group subset, sync/async, success/failure, optional nested group+task or nested stream) or 1 group, <=1 simple task + 1 root stream (13 scripts x capacity 1|2 x eager/lazy) x every order of task completions, stream steps and consumer pulls; end to end: the 20 C04 requests x faults x early execution x propagation x every completion order",
+    "quick": "component level: every synthetic work graph with <=2 delivery groups (any parent relation) and either <=2 tasks (any non-empty group subset, sync/async, success/failure, optional nested group+task or nested stream) or 1 group, <=1 simple task + 1 root stream (15 scripts x capacity 1|2 x eager/lazy) x every order of task completions, stream steps and consumer pulls; end to end: the 20 C04 requests x faults x early execution x propagation x every completion order",
     "thorough": "(<=3 groups, <=3 tasks), (<=2 groups, <=2 tasks, 1 stream), (<=2 groups, <=1 task, 2 streams); early release <=1 end to end",
 }
 RULE = (
@@ -65,6 +65,8 @@ STREAM_SCRIPTS = [
     ["i", "f", "i", "end"],
     ["i", "i", "f", "fail"],
     ["i", "f", "f", "end"],
+    ["f", "i", "fail"],
+    ["f", "f", "i", "fail"],
 ]
 TASK_MODES = ["sync_ok", "async_ok", "sync_fail", "async_fail"]
 NESTED = ["none", "group", "stream"]
